@@ -67,6 +67,29 @@ Definition rec_path (s : st) (d : N) : option art :=
 Definition key_of (s : st) (d : N) : option N :=
   match ds_get s d with Some a => Some (snd a) | None => None end.
 Definition is_child (s : st) (c : N) : bool := existsb (fun p => memN c (snd p)) (chains s).
+Definition children_in (ch : list (N * list N)) (c : N) : list N :=
+  match find (fun p => fst p =? c) ch with Some p => snd p | None => [] end.
+Definition children (s : st) (c : N) : list N := children_in (chains s) c.
+(* is `target` equal to `from` or below it in the chain definitions (fuel = 1 + number of chain definitions is enough
+   while the definitions are acyclic, which this very check maintains; acyclicity itself is property C03) *)
+Fixpoint reaches (fuel : nat) (ch : list (N * list N)) (from target : N) : bool :=
+  match fuel with
+  | O => false
+  | S f => (from =? target) || existsb (fun x => reaches f ch x target) (children_in ch from)
+  end.
+
+(* ---------- collection contents as the query interfaces report them ---------- *)
+(* a dataset is in its RUN, in the TAGGED collections that have a tag row for it, in the CALIBRATION collections that
+   have a validity row for it; a CHAINED collection shows the union of its (flattened) children *)
+Definition member_of (s : st) (c d : N) : bool :=
+  match ds_get s d with Some a => fst a =? c | None => false end
+  || existsb (fun p => (fst p =? c) && (snd p =? d)) (tags s)
+  || existsb (fun p => (fst (fst p) =? c) && (snd (fst p) =? d)) (calibs s).
+Fixpoint chain_member (fuel : nat) (s : st) (c d : N) : bool :=
+  match fuel with
+  | O => false
+  | S f => member_of s c d || existsb (fun x => chain_member f s x d) (children s c)
+  end.
 
 (* ---------- what the existence interfaces report ---------- *)
 (* Butler.exists(ref) / _exists_many with a plain ref: RECORDED = registry.getDataset finds it;
@@ -82,6 +105,28 @@ Definition located (s : st) (d : N) : bool := memN d (loc s).
    dataset was stored): FileDatastore.knows() trusts the records on the ref, FileDatastore.exists() does not. *)
 Definition exists_flags_carried (s : st) (d : N) : bool * bool * bool :=
   (has_ds s d, true, artifact_present s d).
+
+(* ---------- the bulk interfaces: Butler.stored_many(refs) / Butler._exists_many(refs) ----------
+   FileDatastore._mexists: the records of the requested ids are fetched; _process_mexists_records builds
+   location_map : artifact -> dataset ids, checks every artifact once and hands the result to the ids the map lists
+   for it (all records of a dataset must exist); a requested id that got no result is "not known -> False".
+   `owners p` is what location_map holds for artifact p.  Since /repo 245923d it is the list of ALL requested ids whose
+   record names p (`owners_all`); before that commit it was a dict artifact -> ONE id (`owners_one`: whichever record
+   was iterated last won; here the first of the table order, the choice does not matter for what is proved). *)
+Definition req_recs (s : st) (l : list N) : list (N * art) := filter (fun r => memN (fst r) l) (recs s).
+Definition mexists_with (owners : art -> list N) (s : st) (l : list N) (d : N) : bool :=
+  let ps := filter (fun p => memN d (owners p)) (map snd (req_recs s l)) in
+  match ps with [] => false | _ => forallb (fun p => memA p (files s)) ps end.
+Definition owners_all (s : st) (l : list N) (p : art) : list N :=
+  map fst (filter (fun r => art_eqb (snd r) p) (req_recs s l)).
+Definition owners_one (s : st) (l : list N) (p : art) : list N :=
+  match filter (fun r => art_eqb (snd r) p) (req_recs s l) with [] => [] | r :: _ => [fst r] end.
+Definition stored_many (s : st) (l : list N) (d : N) : bool := mexists_with (owners_all s l) s l d.
+Definition stored_many_single_map (s : st) (l : list N) (d : N) : bool := mexists_with (owners_one s l) s l d.
+(* _exists_many: RECORDED per ref from registry.getDataset, DATASTORE from knows_these (records of the requested ids),
+   _ARTIFACT from mexists *)
+Definition exists_many_flags (s : st) (l : list N) (d : N) : bool * bool * bool :=
+  (has_ds s d, memN d l && has_rec s d, stored_many s l d).
 
 (* ---------- datastore primitives ---------- *)
 (* FileDatastore.trash(list) -> bridge.moveToTrash(check(refs)): rows of dataset_location move to the trash table *)
@@ -176,6 +221,9 @@ Definition store (s : st) (d r k : N) (newrow : bool) : st :=
   mk (colls s) (chains s) (if newrow then (d, (r, k)) :: ds s else ds s) (tags s) (calibs s)
      (d :: loc s) (trash s) ((d, (r, k)) :: recs s) (addA (r, k) (files s)).
 
+Definition unwrite (s : st) (p : art) : st :=
+  mk (colls s) (chains s) (ds s) (tags s) (calibs s) (loc s) (trash s) (recs s) (filter (fun q => negb (art_eqb q p)) (files s)).
+
 (* associate: one row per dataset; a different dataset with the same key already in the collection is a conflict *)
 Fixpoint tag_all (s : st) (c : N) (l : list N) (acc : list (N * N)) : option (list (N * N)) :=
   match l with
@@ -199,11 +247,12 @@ Definition step (s : st) (o : op) : st * outcome :=
     | None => (mk ((c, k) :: colls s) (chains s) (ds s) (tags s) (calibs s) (loc s) (trash s) (recs s) (files s), Ok)
     end
   | SetChain c ch =>
+    (* _modify_collection_chain: unknown child -> cycle (only possible for a CHAINED parent) -> unknown parent -> parent not CHAINED *)
+    if negb (forallb (fun x => match ctype s x with Some _ => true | None => false end) ch) then (s, Err MissingColl) else
     match ctype s c with
     | None => (s, Err MissingColl)
     | Some Chain =>
-      if negb (forallb (fun x => match ctype s x with Some _ => true | None => false end) ch) then (s, Err MissingColl)
-      else if memN c ch then (s, Err Cycle)
+      if existsb (fun x => reaches (S (length (chains s))) (chains s) x c) ch then (s, Err Cycle)
       else (mk (colls s) ((c, ch) :: filter (fun p => negb (fst p =? c)) (chains s)) (ds s) (tags s) (calibs s)
                (loc s) (trash s) (recs s) (files s), Ok)
     | Some _ => (s, Err CollType)
@@ -217,7 +266,10 @@ Definition step (s : st) (o : op) : st * outcome :=
       match ds_get s d with
       | Some a =>
         if negb (art_eqb a (r, k)) then (s, Err Conflict)
-        else if has_rec s d || memN d (loc s) then (s, Err Conflict)
+        else if has_rec s d then (s, Err Conflict)                  (* Butler.put: datastore.knows(ref) -> refused before writing *)
+        else if memN d (loc s) then (unwrite s (r, k), Err Conflict) (* location row without records (only after the stale-trash-row
+                                                                        defect): the artifact is written, bridge.insert hits the
+                                                                        UNIQUE constraint, the rollback deletes the artifact *)
         else (store s d r k false, Ok)
       | None =>
         if existsb (fun p => art_eqb (snd p) (r, k)) (ds s) then (s, Err Conflict)
